@@ -228,6 +228,7 @@ type Frame struct {
 	curLoopEnv []*loopInfo
 	depth      int
 	ranges     map[ssa.Value]*rangeState
+	skipModifies bool
 }
 
 type rangeState struct {
